@@ -84,6 +84,8 @@ func holdsNone() bool { return true }
 func heldx(m any) bool { return true }
 func locksBelow(m any) bool { return true }
 func holdsOnly(m any) bool { return true }
+func holdsAsAtEntry() bool { return true }
+func holdsEntryPlus(m any) bool { return true }
 func inpos(c any) int { return 0 }
 func inbyte(c any, i int) byte { return 0 }
 func outlen(c any) int { return 0 }
@@ -125,6 +127,11 @@ func ghosthavoc(name string) {}
 func visited(k any) bool { return true }
 func deref[T any](p *T) T { return *p }
 func fieldOf(p any, name string) any { return nil }
+func heapHas(x any, s uint64) bool { return false }
+func heapRef[T any](x any, s uint64) T { var z T; return z }
+func heapLen(x any) int { return 0 }
+func heapMin(x any) uint64 { return 0 }
+func calls(f string) int { return 0 }
 func lockOf(x any) any { return x }
 func ite[T any](c bool, a, b T) T { if c { return a }; return b }
 func buflen(b any) int { return 0 }
